@@ -6,7 +6,7 @@ from oracle_util import *  # noqa
 from protocol import from_real
 
 ID = "C15"
-LEAN_MODULE = "SCoda.Props.C15"
+LEAN_MODULE = ["SCoda.Props.C15", "SCoda.Props.NotesB"]
 LEVEL = "proof"
 CLAUSES = [
     ("sounding set of the merge = union of the inputs' sounding sets (overlaps fused from earliest start to latest end); the merge is well-formed; "
@@ -15,6 +15,20 @@ CLAUSES = [
      ["SCoda.C15.signatures", "SCoda.C15.events_sublist", "SCoda.C15.others_kept"]),
     ("duration = maximum input duration", ["SCoda.C15.duration"]),
     ("the sounding set (hence every note's pitch, onset and duration) does not depend on the merge order", ["SCoda.C15.order_independent"]),
+    ("NOTES, not only sounding sets (audit A11): the notes of the merge are a FUSION of the inputs' notes — a code-free specification: separated notes, the same covered "
+     "ticks, a note starts at s iff an input note starts there and s is not strictly inside another input note of its key (touching notes stay apart) — the fusion is "
+     "unique, each fused note is a connected component of the input intervals, its velocity is that of an input note with its key and onset; the independent function "
+     "`fuse` (sort + one sweep) computes it; note shapes (channel, pitch, onset, end) are a permutation-invariant of the input family; the velocity on a same-tick tie does "
+     "depend on the merge order (refuted statement, replayed: 64 vs 90) — the property only claims (pitch, onset, duration)",
+     ["SCoda.NotesB.merge_notes_fused", "SCoda.NotesB.merge_notes_fuse", "SCoda.NotesB.fusion_unique", "SCoda.NotesB.merge_notes_eq_fusion",
+      "SCoda.NotesB.fusion_component", "SCoda.NotesB.merge_velocity", "SCoda.NotesB.order_independent_notes", "SCoda.NotesB.order_independent_pod",
+      "SCoda.NotesB.order_independent_velocity_statement_false", "SCoda.NotesB.notes_lift", "SCoda.NotesB.lift_sounding_only_statement_false"]),
+    ("both kinds of signature as TIMED lists: the (tick, numerator, denominator) and (tick, key) lists of the merge are those of the tick-ordered union of the inputs with "
+     "every repeat of the value in force removed (the first of a run survives, at its tick)", ["SCoda.NotesB.merge_signatures_timed", "SCoda.NotesB.union_signatures"]),
+    ("the union clause needs notes of positive length: with a zero-length note in an input it is refuted (A = [5,10), B = [5,5): A's note is lost) — known finding D17c, "
+     "replayed; stated without PosDur for inputs whose canonical sort is well-formed",
+     ["SCoda.NotesB.union_statement_false", "SCoda.NotesB.union_partial", "SCoda.NotesB.union_sorted", "SCoda.NotesB.merge_notes_fused_sorted",
+      "SCoda.NotesB.order_independent_notes_sorted"]),
 ]
 RULE = ("families of 1-3 well-formed sequences x <=4 notes, same and different channels, overlapping and abutting notes, "
         "different lengths, empty sequences; non-trivial = two inputs with notes on a common (channel, pitch)")
@@ -41,7 +55,7 @@ def o_merge(inp):
         return [("~skip:no-input", "")]
     for r in rels:
         tr, _ = rel_timed(r)
-        if wf_violations(tr) or any(on >= off for (_, _, on, off, _) in notes_of(tr)):
+        if wf_violations(tr) or any(on > off for (_, _, on, off, _) in notes_of(tr)):
             return [("~skip:not-well-formed", "")]
     try:
         sts = {int(k): v for k, v in (inp.get("states") or {}).items()}
@@ -79,12 +93,31 @@ def o_merge(inp):
     return fails
 
 
+def zero_length_input(rels):
+    for r in rels:
+        tr, _ = rel_timed(r)
+        if any(on == off for (_, _, on, off, _) in notes_of(tr)):
+            return True
+    return False
+
+
+# A = note 60 [5,10), B = note 60 [5,5): the merge holds no note at all (A's note is lost)
+D17C_EXAMPLE = {"rels": [[G.pm(WAIT, 0, 5), G.pm(ON, 0, None, note=60, vel=64), G.pm(WAIT, 0, 5), G.pm(OFF, 0, None, note=60)],
+                         [G.pm(WAIT, 0, 5), G.pm(ON, 0, None, note=60, vel=64), G.pm(OFF, 0, None, note=60)]]}
+
+
 def setup(ctx):
     ctx.oracle("merge", o_merge)
+
+    def kf_d17c(f):
+        # an input holds a zero-length note (note-on and note-off on one tick)
+        return f["clause"] in ("union", "order") and zero_length_input([[tuple(m) for m in r] for r in f["input"]["rels"]])
+    ctx.kf_predicates["D17c"] = kf_d17c
 
 
 def generate(ctx):
     rng = ctx.rng
+    ctx.check("merge", D17C_EXAMPLE)            # the recorded instance of the known finding
     for i in range(ctx.n(300, 8000)):
         k = rng.choice([1, 2, 2, 3])
         rels, allnotes = [], []
